@@ -156,7 +156,7 @@ package datafile
 //@   props C11 C02 C13
 //@   ensures [inv-df]  result1 == nil ==> INV_df(result0) && fresh(result0) && result0.ID == id && !result0.closed
 //@   assume  [ghost-kind] result1 == nil ==> result0.kind == suffix
-//@   ensures [durable] result1 == nil ==> result0.ReadWriter.durable == result0.ReadWriter.size && fresh(result0.ReadWriter) && len(result0.bufferedWrites) == 0 && fresh(result0.headerBuf) && result0.ReadWriter.writes == 0
+//@   ensures [durable] result1 == nil ==> result0.ReadWriter.durable == result0.ReadWriter.size && fresh(result0.ReadWriter) && len(result0.bufferedWrites) == 0 && arr(result0.bufferedWrites) == 0 && fresh(result0.headerBuf) && result0.ReadWriter.writes == 0
 //@   ensures [err]     result1 != nil ==> result0 == nil
 //@   ensures [foreign-errors] !engineErr(result1)
 //@   modifies nothing
@@ -250,6 +250,7 @@ package datafile
 //@   requires [records] forall i :: {records[i]} 0 <= i && i < len(records) ==> records[i] != nil && len(records[i].B) < 2147483648 && (arr(records[i].B) == 0 || arr(records[i].B) != arr(df.headerBuf))
 //@   ensures [inv-df]   INV_df(df)
 //@   ensures [count]    result1 == nil ==> len(result0) == len(records)
+//@   ensures [grows]    df.ReadWriter.size >= old(df.ReadWriter.size)
 //@   ensures [positions] result1 == nil ==> (forall j :: {result0[j]} 0 <= j && j < len(result0) ==> result0[j] != nil && fresh(result0[j]) && result0[j].Fid == df.ID && result0[j].Offset < 32768)
 //@   ensures [one-write-call] df.ReadWriter.writes == old(df.ReadWriter.writes) + 1
 //@   ensures [err]      result1 != nil ==> len(result0) == 0 && df.ReadWriter.size == old(df.ReadWriter.size) && df.lastBlockID == old(df.lastBlockID) && df.lastBlockSize == old(df.lastBlockSize)
@@ -272,6 +273,7 @@ package datafile
 //@   ensures [staged]  !old(df.closed) ==> len(df.bufferedWrites) == old(len(df.bufferedWrites)) + 1
 //@   ensures [closed]  old(df.closed) ==> len(df.bufferedWrites) == old(len(df.bufferedWrites))
 //@   ensures [staged-ok] stagedOK(df) && INV_df(df)
+//@   ensures [buf-own] arr(df.bufferedWrites) == old(arr(df.bufferedWrites)) || fresh(df.bufferedWrites)
 //@   ensures [nothing-written] df.ReadWriter.size == old(df.ReadWriter.size) && df.ReadWriter.writes == old(df.ReadWriter.writes)
 //@   modifies df.bufferedWrites, df.bufferedWrites[*], header[*]
 
@@ -280,6 +282,7 @@ package datafile
 //@   requires [inv-df] INV_df(df) && stagedOK(df)
 //@   ensures [inv-df]  INV_df(df)
 //@   ensures [count]   result1 == nil ==> len(result0) == old(len(df.bufferedWrites)) && len(df.bufferedWrites) == 0
+//@   ensures [grows]   df.ReadWriter.size >= old(df.ReadWriter.size)
 //@   ensures [positions] result1 == nil ==> (forall j :: {result0[j]} 0 <= j && j < len(result0) ==> result0[j] != nil && fresh(result0[j]) && result0[j].Fid == df.ID && result0[j].Offset < 32768)
 //@   ensures [one-write-call] df.ReadWriter.writes == old(df.ReadWriter.writes) + 1
 //@   ensures [err]     result1 != nil ==> len(result0) == 0 && df.ReadWriter.size == old(df.ReadWriter.size)
